@@ -22,27 +22,31 @@ func c14Environments(r *Run) {
 		cmd := &c14Cmds[ci]
 		base := c14Base(r.rng, cmd, primaries[ci%len(primaries)])
 		run := base.run()
-		if run.early {
+		if run.early || run.ofile() != "" {
 			continue
 		}
 		type envCase struct {
-			name string
-			env  func(d cliDir) []string
-			skip int
+			name  string
+			env   func(d cliDir) []string
+			skip  int
+			out   int  // stdout a regular file under ulimit -f out (512-byte blocks)
+			empty bool // nothing at all on stdin
 		}
 		cases := []envCase{
-			{"no HOME, no XDG_CACHE_HOME", func(d cliDir) []string { return []string{"TMPDIR=" + filepath.Join(d.root, "tmp")} }, -1},
+			{"no HOME, no XDG_CACHE_HOME", func(d cliDir) []string { return []string{"TMPDIR=" + filepath.Join(d.root, "tmp")} }, -1, 0, false},
 			{"cache root below a regular file", func(d cliDir) []string {
 				f := filepath.Join(d.root, "plainfile")
 				ioutil.WriteFile(f, []byte("x"), 0644)
 				return []string{"HOME=" + filepath.Join(d.root, "home"), "XDG_CACHE_HOME=" + filepath.Join(f, "sub"), "TMPDIR=" + filepath.Join(d.root, "tmp")}
-			}, -1},
+			}, -1, 0, false},
 			{"TMPDIR missing", func(d cliDir) []string {
 				return []string{"HOME=" + filepath.Join(d.root, "home"), "XDG_CACHE_HOME=" + filepath.Join(d.root, "cache"), "TMPDIR=" + filepath.Join(d.root, "no-such-dir")}
-			}, -1},
-			{"stdin a regular file at offset 0", nil, 0},
-			{"stdin a regular file behind 14 bytes", nil, 14},
-			{"stdin a regular file behind 4100 bytes", nil, 4100},
+			}, -1, 0, false},
+			{"stdin a regular file at offset 0", nil, 0, 0, false},
+			{"stdin a regular file behind 14 bytes", nil, 14, 0, false},
+			{"stdin a regular file behind 4100 bytes", nil, 4100, 0, false},
+			{"nothing on stdin (an empty pipe)", nil, -1, 0, true},
+			{"nothing on stdin (an empty regular file)", nil, 0, 0, true},
 		}
 		for _, ec := range cases {
 			d := newCliDir()
@@ -52,19 +56,64 @@ func c14Environments(r *Run) {
 			}
 			line := fmt.Sprintf("cli.env %q gts %s %s", ec.name, run.cmd, strings.Join(run.args, " "))
 			crumb(line)
-			want := d.runEnv(run, true, env, ec.skip)
-			cold := d.runEnv(run, false, env, ec.skip)
-			warm := d.runEnv(run, false, env, ec.skip)
+			rn := run
+			if ec.empty {
+				rn.primary = inHex(nil)
+			}
+			want := d.runEnv(rn, true, env, ec.skip, ec.out)
+			cold := d.runEnv(rn, false, env, ec.skip, 0) // the entry is written by a run whose output succeeds
+			if ec.out == 0 {
+				cold = d.runEnv(rn, false, env, ec.skip, ec.out)
+			}
+			warm := d.runEnv(rn, false, env, ec.skip, ec.out)
+			if ec.out > 0 {
+				cold = warm // only the warm run writes to the limited file
+			}
 			d.close()
 			r.count("env/" + ec.name)
 			r.eval(line, want.status == 0 && len(want.out) > 0)
 			for i, got := range []cliResult{cold, warm} {
-				if got.status != want.status || !bytes.Equal(got.out, want.out) {
+				// when the output device fails midway only the exit status is compared: how many bytes
+				// reached the file before the failure depends on buffering, not on the cache
+				if got.status != want.status || (ec.out == 0 && !bytes.Equal(got.out, want.out)) {
 					r.fail(Failure{Oracle: "caching is transparent also when " + ec.name + " (run " + []string{"cold", "warm"}[i] + " = the --no-cache run in the same environment)", Op: line,
 						Got:  fmt.Sprintf("status %d, %d bytes (sha1 %s)", got.status, len(got.out), sha1hex(got.out)[:12]),
 						Want: fmt.Sprintf("status %d, %d bytes (sha1 %s)", want.status, len(want.out), sha1hex(want.out)[:12])})
 					break
 				}
+			}
+		}
+	}
+	// the output device fails midway: stdout a regular file under a file-size limit.  The limit
+	// applies to every file the process writes, so the case is built so that only stdout exceeds
+	// it: a tiny input (the stdin spool), a guest of 6000 equal residues (the cache entry deflates
+	// to a few dozen bytes), an output of more than 6000 bytes.  Only the exit status is compared
+	// (how many bytes reach the file before the failure depends on buffering): seeded change W3-1
+	// lets the warm run exit 0 although the copy of the entry failed.
+	for _, blocks := range []int{8, 2} {
+		for _, name := range []string{"insert", "infix"} {
+			tiny := inHex([]byte(">s\nacgtacgtacgtacgtacgt\n"))
+			big := "@" + strings.Repeat("a", 6000)
+			run := cliRun{cmd: name, args: []string{"^", big}, primary: tiny}
+			if name == "infix" {
+				// infix: the guest comes on stdin, the host is the argument
+				run = cliRun{cmd: name, args: []string{"^", "@acgtacgtacgt"}, primary: inHex([]byte(">g\n" + strings.Repeat("a", 3000) + "\n"))}
+				if blocks == 8 {
+					continue // 3000 residues fit into 4096 bytes
+				}
+			}
+			d := newCliDir()
+			line := fmt.Sprintf("cli.env \"stdout a regular file that is full after %d bytes\" gts %s ^ @a{6000}", blocks*512, name)
+			crumb(line)
+			okRun := d.runEnv(run, false, nil, -1, 0) // fills the cache; its own output succeeds
+			want := d.runEnv(run, true, nil, -1, blocks)
+			warm := d.runEnv(run, false, nil, -1, blocks)
+			d.close()
+			r.count("env/stdout full")
+			r.eval(line, okRun.status == 0 && want.status != 0)
+			if okRun.status == 0 && warm.status != want.status {
+				r.fail(Failure{Oracle: "a warm-cache run whose output device fails midway exits with the status of the --no-cache run", Op: line,
+					Got: fmt.Sprintf("status %d (%d bytes written)", warm.status, len(warm.out)), Want: fmt.Sprintf("status %d (%d bytes written)", want.status, len(want.out))})
 			}
 		}
 	}
